@@ -11,6 +11,25 @@ Open Scope list_scope.
 Inductive role := RCollector | RUpcast | RCtor | RDtor | RMethod | RStatic | RGetter | RSetter
                 | RSerialize | RDeserialize | RFunction.
 
+(* enum context of a routine (CheckMixin.is_enum): enums of the class and of the class's namespace *)
+Record ectx := { ec_class_enums : list string; ec_ns_enums : list string;
+                 ec_class_path : list string (* namespaces()[1:] ++ [name] *);
+                 ec_ns_path : list string (* parent.full_namespaces()[1:] *) }.
+(* what the routine generator reads besides the argument lists *)
+Record xinfo := {
+  x_cpp : string;             (* C++ name of the class (to_cpp) *)
+  x_base : option string;     (* printed parent class *)
+  x_e : option ectx;
+  x_ret : option ret;         (* return type of the callable *)
+  x_callee : string;          (* spelling of the callee in the C++ call *)
+  x_name : string;            (* name printed in checkArguments *)
+  x_minst : bool;             (* the method has its own template instantiations *)
+  x_prop : option var;        (* the property, for getters / setters *)
+  x_first : bool;             (* first overload of its group (functions: `if` vs `elseif`) *)
+}.
+Definition x_nil : xinfo :=
+  {| x_cpp := ""; x_base := None; x_e := None; x_ret := None; x_callee := ""; x_name := ""; x_minst := false; x_prop := None; x_first := false |}.
+
 (* what a gateway id denotes *)
 Record slot := {
   s_ns : string;          (* namespace_name: the namespace names joined without separator *)
@@ -21,6 +40,7 @@ Record slot := {
   s_args : list arg;      (* the explicit arguments of this overload (after default expansion) *)
   s_backup : list arg;    (* the full declared argument list *)
   s_file : string;        (* the .m file that contains the call site *)
+  s_x : xinfo;
 }.
 
 Record mcfg := { m_module : string; m_ignore : list string; m_boost : bool }.
@@ -68,6 +88,7 @@ Fixpoint add_group {A} (name : string) (xs : list A) (groups : list (string * li
 
 Section Walk.
   Variable c : mcfg.
+  Variable top_items : list item.
 
   Definition wrapper_name : string := (m_module c ++ "_wrapper")%string.
 
@@ -85,9 +106,21 @@ Section Walk.
     (join "::" (ic_home k) ++ "::" ++ ic_name k)%string.
   Definition ignored (k : iclass) : bool := mem_str (ignore_name k) (m_ignore c).
 
-  Definition mk (ns cls : string) (r : role) (member mfun : string) (args backup : list arg) (file : string) : slot :=
+  Definition mkx (ns cls : string) (r : role) (member mfun : string) (args backup : list arg) (file : string)
+             (x : xinfo) : slot :=
     {| s_ns := ns; s_cls := cls; s_role := r; s_member := member; s_mfun := mfun; s_args := args; s_backup := backup;
-       s_file := file |}.
+       s_file := file; s_x := x |}.
+
+  (* enums declared directly in the namespace at path `home` of the instantiated tree *)
+  Fixpoint enums_at (content : list item) (home : list string) : list string :=
+    match home with
+    | [] => flat_map (fun i => match i with IEnum e => [e_name e] | _ => [] end) content
+    | n :: rest =>
+      flat_map (fun i => match i with
+                         | INamespace n' c' => if String.eqb n n' then enums_at c' rest else []
+                         | _ => []
+                         end) content
+    end.
 
   (* all overloads of a list of callables, grouped by name in order of first appearance *)
   Definition grouped {A} (name : A -> string) (args : A -> list arg) (l : list A)
@@ -103,6 +136,11 @@ Section Walk.
     let nsname := String.concat "" home in
     let file := in_pkg home (clean_class_name k ++ ".m")%string in
     let cls := ic_name k in
+    let e := Some {| ec_class_enums := map e_name (ic_enums k); ec_ns_enums := enums_at top_items (ic_home k);
+                     ec_class_path := ic_home k ++ [ic_name k]; ec_ns_path := ic_home k |} in
+    let cx := {| x_cpp := iclass_cpp k; x_base := option_map tn_cpp (ic_base k); x_e := e; x_ret := None;
+                 x_callee := ""; x_name := ""; x_minst := false; x_prop := None; x_first := false |} in
+    let mk := fun ns cls r member mfun args backup file => mkx ns cls r member mfun args backup file cx in
     let head := (if ic_virtual k then [None] else [])
                 ++ [Some (mk nsname cls RCollector "collectorInsertAndMakeBase" cls [] [] file)] in
     match sequence (map (fun x => option_map (map (fun o => Some (mk nsname cls RCtor "constructor" cls o (ik_args x) file)))
@@ -118,15 +156,32 @@ Section Walk.
                       else if mem_str name Tables.matlab_ignore_methods then []
                       else if String.eqb name "serialize" then
                              if m_boost c then [Some (mk nsname cls RSerialize "string_serialize" "string_serialize" [] [] file)] else []
-                           else map (fun mo => Some (mk nsname cls RMethod (im_orig (fst mo)) name (snd mo) (im_args (fst mo)) file))
+                           else map (fun mo =>
+                                       let m := fst mo in
+                                       Some (mkx nsname cls RMethod (im_orig m) name (snd mo) (im_args m) file
+                                                 {| x_cpp := iclass_cpp k; x_base := option_map tn_cpp (ic_base k); x_e := e;
+                                                    x_ret := Some (im_ret m); x_callee := imethod_cpp m; x_name := im_name m;
+                                                    x_minst := match im_insts m with [] => false | _ => true end;
+                                                    x_prop := None; x_first := false |}))
                                     (snd g)) mgroups in
       let serialize_seen := andb (m_boost c) (existsb (fun g => String.eqb (fst g) "serialize") mgroups) in
-      let props := flat_map (fun v => [Some (mk nsname cls RGetter (v_name v) ("get." ++ v_name v)%string [] [] file);
-                                       Some (mk nsname cls RSetter (v_name v) ("set." ++ v_name v)%string [] [] file)]) (ic_props k) in
+      let props := flat_map (fun v =>
+                               let px := {| x_cpp := iclass_cpp k; x_base := option_map tn_cpp (ic_base k); x_e := e;
+                                            x_ret := None; x_callee := ""; x_name := v_name v; x_minst := false;
+                                            x_prop := Some v; x_first := false |} in
+                               [Some (mkx nsname cls RGetter (v_name v) ("get." ++ v_name v)%string [] [] file px);
+                                Some (mkx nsname cls RSetter (v_name v) ("set." ++ v_name v)%string [] [] file px)]) (ic_props k) in
       let statics :=
           flat_map (fun g =>
                       if mem_str (fst g) Tables.matlab_ignore_methods then []
-                      else map (fun mo => Some (mk nsname cls RStatic (is_name (fst mo)) (fst g) (snd mo) (is_args (fst mo)) file))
+                      else map (fun mo =>
+                                  let m := fst mo in
+                                  Some (mkx nsname cls RStatic (is_name m) (fst g) (snd mo) (is_args m) file
+                                            {| x_cpp := iclass_cpp k; x_base := option_map tn_cpp (ic_base k); x_e := e;
+                                               x_ret := Some (is_ret m);
+                                               x_callee := (iclass_cpp k ++ "::" ++ is_orig m)%string;
+                                               x_name := (iclass_cpp k ++ "." ++ is_name m)%string;
+                                               x_minst := false; x_prop := None; x_first := false |}))
                                (snd g)) sgroups in
       let deser := if serialize_seen then [Some (mk nsname cls RDeserialize "string_deserialize" "string_deserialize" [] [] file)] else [] in
       Some (head ++ concat ctors ++ dtor ++ methods ++ props ++ statics ++ deser)
@@ -137,9 +192,15 @@ Section Walk.
     : option (list (option slot)) :=
     match grouped if_name if_args funs with
     | Some groups =>
-      Some (flat_map (fun g => map (fun fo => Some (mk parent_name (if_name (fst fo)) RFunction (if_name (fst fo)) (fst g)
-                                                       (snd fo) (if_args (fst fo))
-                                                       (in_pkg home (fst g ++ ".m")%string)))
+      Some (flat_map (fun g => mapi (fun idx fo =>
+                                      let f := fst fo in
+                                      Some (mkx parent_name (if_name f) RFunction (if_name f) (fst g)
+                                                (snd fo) (if_args f) (in_pkg home (fst g ++ ".m")%string)
+                                                {| x_cpp := ""; x_base := None; x_e := None; x_ret := Some (if_ret f);
+                                                   x_callee := (String.concat "" (map (fun x => (x ++ "::")%string) (if_home f))
+                                                                ++ if_name f)%string;
+                                                   x_name := if_name f; x_minst := false; x_prop := None;
+                                                   x_first := Nat.eqb idx 0 |}))
                                    (snd g)) groups)
     | None => None
     end.
@@ -181,7 +242,7 @@ Section Walk.
     end.
 
   (* index -> entries: call sites as (printed id, file, slot description) *)
-  Inductive what := WSlot (s : slot) | WUpcast (cls : string).
+  Inductive what := WSlot (s : slot) | WUpcast (cls cpp : string).
 
   Fixpoint call_sites_from (i : nat) (l : list (option slot)) : list (nat * what) :=
     match l with
@@ -189,7 +250,7 @@ Section Walk.
     | None :: Some s :: r =>
       (* virtual class: the reserved id i is printed as i+1 for the up-cast call, the collector
          (allocated at i+1) is printed as i *)
-      (S i, WUpcast (s_cls s)) :: (i, WSlot s) :: call_sites_from (S (S i)) r
+      (S i, WUpcast (s_cls s) (x_cpp (s_x s))) :: (i, WSlot s) :: call_sites_from (S (S i)) r
     | None :: r => call_sites_from (S i) r
     | Some s :: r => (i, WSlot s) :: call_sites_from (S i) r
     end.
@@ -227,10 +288,36 @@ Section Walk.
     | None :: r, _ :: rn => routines_from (S i) r rn false
     | Some s :: r, Some nm :: rn =>
       (nm, WSlot s)
-        :: (if queued then [((s_cls s ++ "_upcastFromVoid_" ++ nat_dec i)%string, WUpcast (s_cls s))] else [])
+        :: (if queued then [((s_cls s ++ "_upcastFromVoid_" ++ nat_dec i)%string, WUpcast (s_cls s) (x_cpp (s_x s)))] else [])
         ++ routines_from (S i) r rn false
     | _, _ => []
     end.
   Definition routines (l : list (option slot)) : list (string * what) :=
     routines_from 0 l (map_names_from 0 l) false.
 End Walk.
+
+(* the dispatch table the three emitters are supposed to share: id, routine name, what it is for *)
+Fixpoint table_from (i : nat) (l : list (option slot)) : list (nat * string * what) :=
+  match l with
+  | [] => []
+  | None :: Some s :: r =>
+    (i, (routine_base s ++ "_" ++ nat_dec i)%string, WSlot s)
+      :: (S i, (s_cls s ++ "_upcastFromVoid_" ++ nat_dec (S i))%string, WUpcast (s_cls s) (x_cpp (s_x s)))
+      :: table_from (S (S i)) r
+  | None :: r => table_from (S i) r
+  | Some s :: r => (i, (routine_base s ++ "_" ++ nat_dec i)%string, WSlot s) :: table_from (S i) r
+  end.
+
+(* a reserved id is always followed by the collector it was reserved for *)
+Fixpoint wf_slots (l : list (option slot)) : bool :=
+  match l with
+  | [] => true
+  | None :: Some _ :: r => wf_slots r
+  | None :: _ => false
+  | Some _ :: r => wf_slots r
+  end.
+
+Definition id_of (e : nat * string * what) : nat := fst (fst e).
+Definition name_of (e : nat * string * what) : string := snd (fst e).
+Definition what_of (e : nat * string * what) : what := snd e.
+
